@@ -29,6 +29,14 @@ def replay_chunk(behs):
     A = Float[np.ndarray, "a"]
     good, bad = np.zeros(2, np.float32), np.zeros((2, 2), np.float32)
     out = []
+    PROBE = []
+    import importlib, tempfile, shutil, itertools
+    from jaxtyping import install_import_hook
+    hookdir = tempfile.mkdtemp(prefix="verif_c19_")
+    sys.path.insert(0, hookdir)
+    modno = itertools.count()
+    MODSRC = ("import numpy as np\nfrom jaxtyping import Float\nA = Float[np.ndarray, 'a']\ngood = np.zeros(2, np.float32)\n"
+              "PROBE = []\ndef f(x: A, y: A = good) -> A:\n    PROBE.append(isinstance(np.zeros(5, np.float32), A))\n    return x\n")
     for bi, b in enumerate(behs):
         config.update("jaxtyping_disable", False)
         fn = None
@@ -45,8 +53,20 @@ def replay_chunk(behs):
                     obs.append("Exc:" + type(e).__name__)
             elif a["op"] == "decorate":
                 def f(x: A, y: A = good) -> A:
+                    PROBE.append(isinstance(np.zeros(5, np.float32), A))
                     return x
-                if a["kind"] == "plain":
+                if a["kind"] == "hooked":
+                    # a module imported under the import hook NOW (whatever the switch says at this moment)
+                    name = f"verif_c19_mod_{os.getpid()}_{next(modno)}"
+                    open(os.path.join(hookdir, name + ".py"), "w").write(MODSRC)
+                    importlib.invalidate_caches()
+                    with install_import_hook(name, "beartype.beartype" if bi % 2 else "typeguard.typechecked"):
+                        mod = importlib.import_module(name)
+                    mod.PROBE = PROBE
+                    fn = mod.f
+                    os.remove(os.path.join(hookdir, name + ".py"))
+                    sys.modules.pop(name, None)
+                elif a["kind"] == "plain":
                     fn = jaxtyped(typechecker=tc)(f)
                 elif a["kind"] == "ntc_above":
                     fn = typing.no_type_check(jaxtyped(typechecker=tc)(f))
@@ -55,9 +75,15 @@ def replay_chunk(behs):
                 obs.append("ok")
             else:
                 arg = good if a["typed"] == "well" else bad
+                del PROBE[:]
                 try:
-                    r = fn(arg)
-                    obs.append("ok" if r is arg else "wrong-result")
+                    if a["outer"]:
+                        with jaxtyped("context"):
+                            assert isinstance(np.zeros(3, np.float32), A)
+                            r = fn(arg)
+                    else:
+                        r = fn(arg)
+                    obs.append(("ok:" + "".join("T" if p else "F" for p in PROBE)) if r is arg else "wrong-result")
                 except TypeCheckError:
                     obs.append("TCE")
                 except BaseException as e:  # noqa
@@ -65,6 +91,7 @@ def replay_chunk(behs):
         config.update("jaxtyping_disable", False)
         if obs != b["obs"]:
             out.append({"program": b["hist"], "expected": b["obs"], "observed": obs})
+    shutil.rmtree(hookdir, ignore_errors=True)
     return out, len(behs)
 
 
@@ -160,7 +187,7 @@ def main(tier):
         for bad, _ in outs:
             for b in bad[:50]:
                 prog = " ; ".join(a["op"] + ":" + (a["item"] + "=" if a.get("item", "jaxtyping_disable") != "jaxtyping_disable" else "")
-                                  + str(a.get("v", a.get("kind", a.get("typed")))) for a in b["program"])
+                                  + str(a.get("v", a.get("kind", a.get("typed")))) + ("@ctx" if a.get("outer") else "") for a in b["program"])
                 chk.disagree(f"C19:switch:{prog}", b)
         # environment variable in sub-processes; ParseSwitch decides (evaluated by TLC through the emitted behaviours'
         # first update step: the same spellings) - compare with the in-process result of the same spelling
@@ -188,7 +215,8 @@ def main(tier):
         chk.cov["evaluations"] += len(behs)
         chk.sample({"switch_program": behs[len(behs) // 3]["hist"], "expected": behs[len(behs) // 3]["obs"]})
         chk.part("switch", behaviours=len(behs), env_spellings=13)
-        chk.assumptions += ["hooked-module variant is covered by C11's replay (instrumented functions are jaxtyped functions)"]
+        chk.assumptions += ["the body's manual check distinguishes 'runs in the caller's context' (plain code) from 'runs in a "
+                            "context of its own'"]
         import shutil
         shutil.rmtree(wd, ignore_errors=True)
     except MachineryFailure as e:
